@@ -135,13 +135,21 @@ func (i *Instance) Connector(_ context.Context, dispenserFetcher PluginDispenser
 		return &Source{
 			Instance:  i,
 			dispenser: pluginDispenser,
-			errs:      make(chan error),
+			// buffered for the same reason as Destination.errs below: a
+			// failed flush is reported by a persister callback that sends on
+			// errs, and the source node may already have stopped reading
+			errs: make(chan error, 1),
 		}, nil
 	case TypeDestination:
 		return &Destination{
 			Instance:  i,
 			dispenser: pluginDispenser,
-			errs:      make(chan error),
+			// buffered: the persister reports a failed write of this
+			// connector through a callback that sends on errs; once the
+			// destination node stopped reading Errors() an unbuffered send
+			// would park that callback forever and with it every later
+			// WaitPendingWrites / WaitPersisted (StopAndWait)
+			errs: make(chan error, 1),
 		}, nil
 	default:
 		return nil, ErrInvalidConnectorType
